@@ -94,6 +94,8 @@ def bucket_array(bucket: str, v: float, rows: int, cols: int, args: dict) -> Any
         return base
     if bucket == "pixel":
         return base
+    if bucket == "phase":
+        return base * 0.5
     if bucket == "signal":
         return (base * 1e-3).astype(args.get("float_dtype", "float64"))
     if bucket == "image":
@@ -189,6 +191,8 @@ def simulate(scn: dict, overrides: Optional[dict] = None) -> dict:
                     add[0, 0] += arr[0, 0]
                     add[-1, -1] += arr[-1, -1]
                     state["charge"] = state["charge"] + add
+                elif b in ("scene", "data", "phase"):
+                    pass
                 elif b == "charge":
                     state["charge"] = state["charge"] + arr
                 elif b == "pixel":
